@@ -179,6 +179,14 @@ func (fx *FnExec) resumeAfter(st *State, fr *frame, ins ssa.Instruction) {
 }
 
 func (fx *FnExec) bindResults(st *State, v ssa.Value, sig *types.Signature, results []Term) {
+	if ins, ok := v.(ssa.Instruction); ok && ins.Parent() == fx.fn {
+		m := make(map[string][]Term, len(st.callRes)+1)
+		for k, r := range st.callRes {
+			m[k] = r
+		}
+		m[fx.ord(fx.fn, ins, "")] = results
+		st.callRes = m
+	}
 	n := sig.Results().Len()
 	switch {
 	case n == 0:
@@ -689,8 +697,14 @@ func (fx *FnExec) applyContract(st *State, fr *frame, tgt callTarget, sig *types
 	}
 	// havoc modifies
 	old := st.snapshotHeap()
-	for _, m := range fc.Modifies {
-		fx.havocTarget(st, env, m)
+	{
+		// modifies targets denote locations of the pre-state
+		pre := *env
+		pre.old = old
+		pre.inOld = true
+		for _, m := range fc.Modifies {
+			fx.havocTarget(st, &pre, m)
+		}
 	}
 	// results
 	var results []Term
@@ -924,7 +938,7 @@ func (fx *FnExec) doBuiltin(st *State, fr *frame, x *ssa.Call, b *ssa.Builtin) {
 		n := fx.freshConst("copy.n", "Int")
 		srcLen := "(slen " + src + ")"
 		srcAt := func(i string) string {
-			return "(select (select " + st.heapGet("Mem."+sanitize(es), "(Array Int "+arrOf(es)+")") + " (sptr " + src + ")) (+ (soff " + src + ") " + i + "))"
+			return "(select " + fx.winOf(es, "(select "+st.heapGet("Mem."+sanitize(es), "(Array Int "+arrOf(es)+")")+" (sptr "+src+"))", "(soff "+src+")") + " " + i + ")"
 		}
 		if fx.sortOf(cc.Args[1].Type()) == "Str" {
 			srcLen = "(strlen " + src + ")"
@@ -969,7 +983,8 @@ func (fx *FnExec) doAppend(st *State, fr *frame, x *ssa.Call) {
 	ls := "(slen " + s + ")"
 	r := st.freshRef("append")
 	arr0 := fx.freshConst("append.arr", arrOf(es))
-	st.assume(fmt.Sprintf("(forall ((q.i Int)) (! (=> (and (<= 0 q.i) (< q.i %s)) (= (select %s q.i) (select (select %s (sptr %s)) (+ (soff %s) q.i)))) :pattern ((select %s q.i))))", ls, arr0, mem, s, s, arr0))
+	swin := fx.winOf(es, "(select "+mem+" (sptr "+s+"))", "(soff "+s+")")
+	st.assume(fmt.Sprintf("(forall ((q.i Int)) (! (=> (and (<= 0 q.i) (< q.i %s)) (= (select %s q.i) (select %s q.i))) :pattern ((select %s q.i))))", ls, arr0, swin, arr0))
 	var arr, lt Term
 	single := false
 	if sl, ok := cc.Args[1].(*ssa.Slice); ok && sl.Low == nil && sl.High == nil {
@@ -990,7 +1005,8 @@ func (fx *FnExec) doAppend(st *State, fr *frame, x *ssa.Call) {
 	} else {
 		lt = "(slen " + t + ")"
 		arr = fx.freshConst("append.arr2", arrOf(es))
-		st.assume(fmt.Sprintf("(forall ((q.i Int)) (! (= (select %s q.i) (ite (and (<= %s q.i) (< q.i (+ %s %s))) (select (select %s (sptr %s)) (+ (soff %s) (- q.i %s))) (select %s q.i))) :pattern ((select %s q.i))))", arr, ls, ls, lt, mem, t, t, ls, arr0, arr))
+		twin := fx.winOf(es, "(select "+mem+" (sptr "+t+"))", "(soff "+t+")")
+		st.assume(fmt.Sprintf("(forall ((q.i Int)) (! (= (select %s q.i) (ite (and (<= %s q.i) (< q.i (+ %s %s))) (select %s (- q.i %s)) (select %s q.i))) :pattern ((select %s q.i))))", arr, ls, ls, lt, twin, ls, arr0, arr))
 	}
 	st.heapSet(mn, ms, "(store "+mem+" "+r+" "+arr+")")
 	cp := fx.freshConst("append.cap", "Int")
